@@ -145,7 +145,6 @@ class Plan:
     self.defaults = []
     self.producer = {}   # output path -> Edge
     self._parse(text)
-    self._check_graph()
 
   # -- parsing ---------------------------------------------------------------
   def _file_env(self, name):
@@ -344,8 +343,10 @@ class Plan:
       if d not in self.producer:
         raise PlanRejected("unknown target %r in default" % d)
 
-  def _check_graph(self):
-    # dependency cycle detection over edges
+  def check_cycles(self, want):
+    """ninja reports a dependency cycle only when it meets one while walking
+    from the requested targets (an edge that merely feeds itself is not a root
+    and is silently never built)."""
     color = {}
 
     def visit(e, stack):
@@ -362,9 +363,9 @@ class Plan:
 
     import sys
     sys.setrecursionlimit(max(sys.getrecursionlimit(), 10000))
-    for e in self.edges:
-      if e.id not in color:
-        visit(e, [])
+    for eid in sorted(want):
+      if eid not in color:
+        visit(self.edges[eid], [])
 
   # -- expansion -------------------------------------------------------------
   def edge_env(self, edge):
@@ -443,6 +444,8 @@ class Plan:
         for p in e.all_inputs():
           used.add(p)
       roots = [e for e in self.edges if not any(o in used for o in e.outs)]
+      if self.edges and not roots:
+        raise PlanRejected("could not determine root nodes of build graph")
     want = set()
     stack = list(roots)
     while stack:
@@ -493,6 +496,7 @@ class Invocation:
     self.started = []            # order of starts (edge ids)
     # missing inputs without a producer: ninja errors out before building
     want = plan.targets()
+    plan.check_cycles(want)
     for eid in sorted(want):
       e = plan.edges[eid]
       for p in e.ins + e.implicit:
